@@ -52,6 +52,9 @@ def _bdecode(data: bytes, start_index: int = 0) -> typing.Tuple[typing.Union[int
             raise DecodeError(err)
         start_index = split_pos + 1
         end_pos = start_index + length
+        if length < 0 or end_pos > len(data):
+            # a negative length moves the index backwards (endless loop), a too large one reads past the datagram
+            raise DecodeError(f"invalid string length: {length}")
         return data[start_index:end_pos], end_pos
 
 
@@ -71,5 +74,5 @@ def bdecode(data: bytes, allow_non_dict_return: typing.Optional[bool] = False) -
         if not allow_non_dict_return and not isinstance(result, dict):
             raise ValueError(f'expected dict, got {type(result)}')
         return result
-    except (ValueError, TypeError) as err:
+    except (ValueError, TypeError, IndexError, RecursionError) as err:  # truncated or too deeply nested input
         raise DecodeError(err)
